@@ -858,3 +858,50 @@ def map_drain(ctx: Ctx) -> None:
                 ok = any(s.value is not None and mentions_name(s.value, m.twin) for s in m.fl.rdefs(arg.id, nid))
                 ok = ok and cfg.in_loop(nid, m.fin_loop.id)
             ctx.ob(d, n, ok, f"`{unparse(n, 50)}`: a future leaves `{m.pending}` unfinished only as the twin of a delivered task", sel="drain:shrink")
+
+
+@rule("SCHED-DIV-1", props=["C08"], floor=1)
+def sched_div(ctx: Ctx) -> None:
+    """the scheduling code never divides by an elapsed time: a difference of two clock
+    readings is 0.0 on a coarse clock, and a ZeroDivisionError there ends the map with an
+    error that is no task's error although every task succeeded"""
+    repo = ctx.repo
+    n_div = 0
+    bad = []
+    for d in repo.functions():
+        if d.module.qual not in (A.RT_BACKUP, A.RT_ASYNC):
+            continue
+        fl, cfg = flow_of(repo, d), cfg_of(d)
+        for b in d.own_nodes():
+            if not (isinstance(b, (ast.BinOp, ast.AugAssign)) and isinstance(b.op, (ast.Div, ast.FloorDiv, ast.Mod))):
+                continue
+            r = b.right if isinstance(b, ast.BinOp) else b.value
+            if isinstance(getattr(b, "left", None), ast.Constant) and isinstance(b.left.value, str):
+                continue
+            if not cfg.has(b):
+                continue
+            n_div += 1
+            at = cfg.node_of(b)
+            # expand the divisor through local definitions
+            seen, work, elapsed = set(), [(r, at)], None
+            while work and len(seen) < 40:
+                e, at_ = work.pop()
+                for x in ast.walk(e):
+                    if isinstance(x, ast.BinOp) and isinstance(x.op, ast.Sub):
+                        elapsed = x
+                    if isinstance(x, ast.Name) and isinstance(x.ctx, ast.Load) and id(x) not in fl.comp_bind:
+                        for s_ in fl.rdefs(x.id, at_):
+                            if s_.value is not None and id(s_.value) not in seen:
+                                seen.add(id(s_.value))
+                                work.append((s_.value, s_.node))
+            if elapsed is None:
+                continue
+            guarded = False
+            for t, pol in facts_at(cfg, at):
+                if isinstance(t, ast.Compare) and any(isinstance(c_, ast.Constant) and c_.value == 0 for c_ in t.comparators) and any(isinstance(x, ast.Name) and x.id in {y.id for y in ast.walk(r) if isinstance(y, ast.Name)} for x in ast.walk(t.left)):
+                    guarded = True
+            if not guarded:
+                bad.append((d, b, elapsed))
+    for d, b, el in bad:
+        ctx.ob(d, b, False, f"`{unparse(b, 50)}` divides by a value computed from an elapsed time (`{unparse(el, 40)}`): 0.0 on a coarse clock → ZeroDivisionError ends the map although every task succeeded", sel=f"div-elapsed:{ctx.anon(d, b, 40)}")
+    ctx.ob(repo.get(f"{A.RT_BACKUP}.should_launch_backup"), None, not bad, f"{n_div} division(s) in the scheduling code, none by an elapsed time", sel="div-elapsed:scan", nontrivial=False)
